@@ -46,6 +46,10 @@ def build(spec: Dict[str, Any]):
     parts: List[str] = ['self'] if view else []
     ns_defaults: Dict[str, Any] = {}
     star = False
+    if m.get('posonly'):
+        # a leading positional-only parameter with a default: it can not be passed by name, so it is no JSON-RPC parameter of
+        # a params OBJECT and must not be documented
+        parts += ['po_first=0', '/'] if not (params and params[0].get('ctx') and params[0]['kind'] == 'PK') else []
     for p in params:
         if p['kind'] == 'KO' and not star:
             parts.append('*')
@@ -107,6 +111,9 @@ def variants(params: List[Dict[str, Any]]) -> Iterator[Dict[str, Any]]:
     for excluded in (False, True, 'unannotated'):
         ps = list(params) + ([{'name': 'dep_inj', 'kind': 'KO', 'default': {'value': None}, 'excluded': True}] if excluded else [])
         yield {'params': ps, 'flavour': 'func', 'excluded': excluded, 'view_ctx': False}
+        if not excluded and all('default' in p for p in ps if p['kind'] == 'PK'):
+            # python requires defaults after a defaulted positional-only parameter
+            yield {'params': ps, 'flavour': 'func', 'excluded': excluded, 'view_ctx': False, 'posonly': True}
         for pos in range(0, n_pk + 1):
             cand = ps[:pos] + [{'name': 'ctx', 'kind': 'PK', 'ctx': True}] + ps[pos:]
             if hm.valid_order([{**p, 'default': {'value': 0}} if 'default' in p else p for p in cand]):
@@ -140,7 +147,7 @@ class C17(Check):
         "cases: (a) enumerated: every signature of <= 2 (quick) / <= 3 (thorough) parameters over positional-or-keyword / keyword-only x with / "
         "without defaults (JSON values and non-JSON-serialisable sentinel objects), x context parameter designations (none, by name at each positional position, keyword-only, view constructor) x "
         "exclusion predicate off / by name prefix / by missing annotation (an extra defaulted 'dep_' parameter, excluded in the extractor and in the validator) x function / view "
-        "method, x the same function registered a second time without context designation (probed in both orders); (b) Hypothesis: signatures of up to 4 parameters with annotations. For each: the OpenAPI request schema and the OpenRPC params "
+        "method, x the same function registered a second time without context designation (probed in both orders), x a leading positional-only parameter with a default (no parameter of a params object: never documented, never settable by name); (b) Hypothesis: signatures of up to 4 parameters with annotations. For each: the OpenAPI request schema and the OpenRPC params "
         "list are generated with PydanticSchemaExtractor, and ALL params objects over subsets of (documented names + one undocumented name + "
         "the context name + the excluded name) are dispatched. Oracle: documented names == the signature's client parameters, documented "
         "required == those without default, context / excluded names in neither document, both documents agree; a params object whose keys "
@@ -154,7 +161,7 @@ class C17(Check):
         "view methods do not name a parameter after the view's context",
     ]
     trusted_base = ['python call binding (parameter lists are read off the generated signature spec)']
-    required_classes = ['flavour/func', 'flavour/view', 'ctx/name', 'ctx/view', 'excluded/yes', 'kind/KO', 'has-default', 'n=0', 'registered-twice']
+    required_classes = ['flavour/func', 'flavour/view', 'ctx/name', 'ctx/view', 'excluded/yes', 'kind/KO', 'has-default', 'n=0', 'registered-twice', 'kind/positional-only-default']
 
     def _enum(self, maxn: int, shard: int = 0, nshards: int = 1):
         k = 0
@@ -250,7 +257,7 @@ class C17(Check):
         for kind, (names, required) in documented.items():
             if set(names) != set(want_names) or len(names) != len(want_names):
                 extra = sorted(set(names) - set(want_names))
-                which = 'context-or-excluded-documented' if any(x == 'ctx' or x.startswith('dep_') for x in extra) else ('self-documented' if 'self' in extra else 'names')
+                which = 'context-or-excluded-documented' if any(x == 'ctx' or x.startswith('dep_') for x in extra) else ('self-documented' if 'self' in extra else 'positional-only-documented' if 'po_first' in extra else 'names')
                 discs.append(Disc(f"C17/{kind}/{which}", f"documented {names} expected {want_names} | {where}"))
             elif set(required) != set(want_required):
                 discs.append(Disc(f"C17/{kind}/required", f"documented required {required} expected {want_required} | {where}"))
@@ -259,7 +266,8 @@ class C17(Check):
 
         # dispatch all params objects over subsets of (documented names + undocumented + ctx + excluded)
         pub_names, pub_required = documented.get('openapi') or documented.get('openrpc') or (want_names, want_required)
-        pool = list(dict.fromkeys(list(pub_names) + want_names + ['zz'] + [p['name'] for p in m['params'] if p.get('ctx') or p.get('excluded')]))
+        pool = list(dict.fromkeys(list(pub_names) + want_names + ['zz'] + [p['name'] for p in m['params'] if p.get('ctx') or p.get('excluded')]
+                                  + (['po_first'] if m.get('posonly') else [])))
         n_eval = 0
         for r in range(len(pool) + 1):
             for subset in itertools.combinations(pool, r):
@@ -286,6 +294,8 @@ class C17(Check):
             classes.append('excluded/yes')
         if any(p['kind'] == 'KO' for p in client_params):
             classes.append('kind/KO')
+        if m.get('posonly'):
+            classes.append('kind/positional-only-default')
         if any('default' in p for p in client_params):
             classes.append('has-default')
         nontrivial = any(c in classes for c in ('ctx/name', 'excluded/yes', 'kind/KO', 'has-default'))
